@@ -13,6 +13,7 @@ import shutil
 import tempfile
 
 from .. import progen, layout, reflex, minify, carts
+from .. import ambient
 from .. import refcodec as rc
 
 LEVEL = 'exploration'
@@ -145,7 +146,7 @@ def check_cli(ctx, src, p, config, keep_file, workdir, case):
             os.remove(f)
     with open(p1, 'wb') as fh:
         fh.write(rc.write_p8(regions, src, version=8))
-    argv = ['-q', 'luamin']
+    argv = [ambient.vflag(), 'luamin']
     if config == 'keep_all':
         argv.append('--keep-all-names')
     elif config == 'keep_file':
@@ -170,7 +171,7 @@ def check_cli(ctx, src, p, config, keep_file, workdir, case):
         if os.path.exists(out2):
             os.remove(out2)
         try:
-            rcode = tool.main(['-q', 'build', out2, '--lua', p1, '--lua-minify'])
+            rcode = tool.main([ambient.vflag(), 'build', out2, '--lua', p1, '--lua-minify'])
             got2 = rc.read_p8(open(out2, 'rb').read())['code']
         except BaseException as e:
             ctx.violation('p8tool build --lua-minify failed: %r' % (e,), case)
